@@ -95,6 +95,14 @@ type c04Step struct {
 	// "shutdown" = c.Shutdown (sends CloseConnection, judges the reply's status, closes the client if it is a success)
 	Via   string `json:"via"`
 	InTyp int    `json:"in_typ"`
+	// op = "chunk": the caller CancelCaller gives up (its context is cancelled) when the first CancelAt bytes of the chunk
+	// have been written: the peer holds the rest until that caller has returned.  Before cancelling the peer waits until
+	// the client has logged CancelRecs headers of this chunk's frames (the frame in flight has been looked up) and
+	// completed CancelDone of them.
+	CancelCaller *int `json:"cancel_caller"`
+	CancelAt     int  `json:"cancel_at"`
+	CancelRecs   int  `json:"cancel_recs"`
+	CancelDone   int  `json:"cancel_done"`
 }
 
 type c04Scenario struct {
@@ -628,6 +636,7 @@ func runC04(sc c04Scenario) c04Result {
 	}
 
 	callers := map[int]*c04Caller{}
+	cancels := map[int]context.CancelFunc{}
 	var callerOrder []int
 	var cwg sync.WaitGroup
 	total := 0 // frames written in chunks so far
@@ -641,9 +650,11 @@ stepLoop:
 			callers[st.Caller] = cr
 			callerOrder = append(callerOrder, st.Caller)
 			cwg.Add(1)
+			cctx, ccancel := context.WithCancel(ctx)
+			cancels[st.Caller] = ccancel
 			go func(st c04Step) {
 				defer cwg.Done()
-				r := awaitVia(ctx, c, st.Typ, st.Via, st.InTyp)
+				r := awaitVia(cctx, c, st.Typ, st.Via, st.InTyp)
 				obs.mu.Lock()
 				r.Caller, r.ReqID = cr.Caller, cr.ReqID
 				*cr = r
@@ -761,6 +772,41 @@ stepLoop:
 						}
 					}
 					werr <- nil
+					return
+				}
+				if st.CancelCaller != nil {
+					at := st.CancelAt
+					if at > len(data) {
+						at = len(data)
+					}
+					if err := writeSegments(peer, data[:at], st.Seg, st.SegSeed, st.SegMax); err != nil {
+						werr <- err
+						return
+					}
+					base := total
+					for t0 := time.Now(); time.Since(t0) < step; time.Sleep(200 * time.Microsecond) {
+						obs.mu.Lock()
+						ok := len(obs.recs) >= 1+base+st.CancelRecs && obs.done >= base+st.CancelDone
+						obs.mu.Unlock()
+						if ok {
+							break
+						}
+					}
+					time.Sleep(2 * time.Millisecond)
+					if cf := cancels[*st.CancelCaller]; cf != nil {
+						cf()
+					}
+					if cr := callers[*st.CancelCaller]; cr != nil {
+						for t0 := time.Now(); time.Since(t0) < step; time.Sleep(200 * time.Microsecond) {
+							obs.mu.Lock()
+							ret := cr.Returned
+							obs.mu.Unlock()
+							if ret {
+								break
+							}
+						}
+					}
+					werr <- writeSegments(peer, data[at:], st.Seg, st.SegSeed+1, st.SegMax)
 					return
 				}
 				if st.Seg == "cuts" {
